@@ -378,3 +378,58 @@ Example C04_stalemate_answers_null := NullExamples.stalemate_answers_null.
 Example C04_checkmate_answers_null := NullExamples.checkmate_answers_null.
 Example C04_one_move_answered := NullExamples.one_move_answered.
 Example C04_null_hyps_met_session := NullExamples.hyps_met_session.
+
+(* ======================= A WHOLE GAME against the engine (GameThm/*.v) =======================
+   [reached roots e]: e is the engine after ANY in-domain lines from process start (position commands with FIDE-legal games from legal
+   positions, any go lines, anything else), roots = the positions searched so far.  It replaces every hypothesis on the engine state
+   (not RUNNING, evaluation cache sane, ...): those are invariants of in-domain sessions (GameInv.session_invariant).
+   [gui_game iters fuel opp e fms0 rds]: the dialogue of a GUI playing a game: round k sends `position startpos moves <all moves so far>`
+   and `go <parameters of round k>`, reads the bestmove, appends it and the reply of the opponent [opp] - ANY strategy that answers with
+   FIDE-legal moves.  Then, as long as the repetition stack has room and no round gets stuck under the small bounds (it0, f0 <= 255):
+   every round prints exactly one bestmove, last; it is a FIDE-legal move of the FIDE position of the game so far, the null move exactly
+   when that position has no legal move; the moves so far form a FIDE game; the engine is idle after each round; the game ends because
+   all rounds are played or one side has no legal move - never broken. *)
+From Clemens.GameThm Require GameInv GameAfter GameWhole.
+
+Theorem C04_whole_game : forall iters fuel it0 f0 opp rds roots e fms0 s0,
+  (510 <= iters)%nat -> (f0 <= fuel)%nat -> (f0 <= 255)%nat -> (it0 <= 510)%nat ->
+  GameInv.reached roots e -> Recon.fide_game Fide.initial fms0 s0 -> GameWhole.legal_strategy opp -> Forall GameWhole.round_ok rds ->
+  (List.length fms0 + 2 * List.length rds + f0 <= 1024)%nat ->
+  GameWhole.gl_end (GameWhole.gui_game it0 f0 opp e fms0 rds) <> GameWhole.GBroken SStuck ->
+  GameWhole.gui_game iters fuel opp e fms0 rds = GameWhole.gui_game it0 f0 opp e fms0 rds /\
+  GameWhole.game_ok iters fuel it0 f0 opp roots fms0 (List.length rds) (GameWhole.gui_game iters fuel opp e fms0 rds).
+Proof. exact GameWhole.whole_game. Qed.
+Print Assumptions C04_whole_game.
+
+Theorem C04_whole_game_rounds : forall iters fuel it0 f0 opp roots fms0 n r,
+  GameWhole.game_ok iters fuel it0 f0 opp roots fms0 n r ->
+  Forall (fun l =>
+    EngState.count_best (GameWhole.rl_out l) = 1%nat /\ last (GameWhole.rl_out l) OReadyOk = OBestMove (GameWhole.rl_best l) /\
+    en_state (GameWhole.rl_after l) = ST_IDLE /\
+    exists s, Recon.fide_game Fide.initial (GameWhole.rl_moves l) s /\
+      (Fide.legal_moves s <> [] -> GameWhole.rl_best l <> NULL_MOVE /\ In (Abs.decode (GameWhole.rl_best l)) (Fide.legal_moves s)) /\
+      (Fide.legal_moves s = [] -> GameWhole.rl_best l = NULL_MOVE)) (GameWhole.gl_rounds r).
+Proof. exact GameWhole.game_ok_rounds. Qed.
+Print Assumptions C04_whole_game_rounds.
+
+(* the end-to-end theorem with every hypothesis on the engine state replaced by "reached from process start" *)
+Theorem C04_engine_answers_after_any_session :
+  forall roots e iters fuel it0 f0 c0 c fms s garbage ps,
+  GameInv.reached roots e ->
+  (510 <= iters)%nat -> (f0 <= fuel)%nat -> (f0 <= 255)%nat -> (it0 <= 510)%nat ->
+  Recon.fide_game Fide.initial fms s -> (List.length fms + f0 <= 1024)%nat ->
+  Forall GoLineSpec.plain_token garbage -> GoLineSpec.all_unknown GoConsts.validFirstInputToken garbage ->
+  NoDup (map GoLineSpec.kind ps) -> Forall GoLineSpec.param_ok ps -> GoLineSpec.value_of ParseGo.KDepth ps <> 255%Z ->
+  let pos_line := GoLineSpec.join (Input.w_position :: EngE2E.startpos_tokens fms) in
+  let go_line := GoLineSpec.join (garbage ++ Input.w_go :: GoLineSpec.render ps) in
+  fst (go_run it0 f0 e [(pos_line, c0); (go_line, c)]) <> SStuck ->
+  exists g,
+    FideFacts.same_core (Abs.abs (Game.g_pos g)) s /\ ((List.length fms <= 255)%nat -> Abs.abs (Game.g_pos g) = s) /\
+    legal_pos (Game.g_pos g) /\ List.length (Game.g_hist g) = List.length fms /\ Game.g_pos g = GameAfter.game_root fms /\
+    EngE2E.e2e_result s g (GoLineSpec.denote ps) (GoLineSpec.acks ps) (go_run iters fuel e [(pos_line, c0); (go_line, c)]) /\
+    (forall e' out, go_run iters fuel e [(pos_line, c0); (go_line, c)] = (SEof e', out) -> GameInv.reached (Game.g_pos g :: roots) e').
+Proof. exact GameAfter.engine_answers_after_any_session_startpos. Qed.
+Print Assumptions C04_engine_answers_after_any_session.
+
+(* non-vacuity: a three-round game with the engine as White and a two-round game with the engine as Black, computed by the kernel *)
+From Clemens.GameThm Require GameExamples GameExBlack.
